@@ -50,7 +50,7 @@ RENAMERS = {
 OP_WEIGHTS = {
     "new_box": 3, "drop_box": 1, "setitem": 8, "share": 4, "delitem": 2, "copy": 5, "shallow": 4, "rename": 4,
     "keep": 3, "remove": 3, "lay": 6, "clip": 4, "prepend": 3, "merge": 4, "or": 2, "item_op": 8,
-    "export": 12, "import": 10, "slate": 5, "slate_new": 4, "slate_to_box": 5, "slate_rescale": 3, "slate_copy": 2,
+    "box_read": 4, "export": 12, "import": 10, "slate": 5, "slate_new": 4, "slate_to_box": 5, "slate_rescale": 3, "slate_copy": 2,
 }
 MUTATING = {"setitem", "share", "delitem", "rename", "keep", "remove", "lay", "clip", "prepend", "merge", "item_op", "export",
             "slate_rescale"}
@@ -576,6 +576,15 @@ class DataboxWorld(World):
         if b is None or o is None:
             return None
         return {"op": "or", "out": [self._name()], "args": {"box": b, "other": o}}
+
+    def _gen_box_read(self, actor, rng, val, flt):
+        b = self._any_box(rng, actor)
+        if b is None:
+            return None
+        names = sorted(self.bind[b])
+        probe = rng.sample(names, min(len(names), rng.randint(0, 3))) + (["missing_zz"] if rng.random() < 0.4 else [])
+        return {"op": "box_read", "args": {"box": b, "probe": probe, "freq": rng.choice(list(cal.ALL_FREQS)),
+                                           "pred": rng.choice(sorted(PREDICATES))}}
 
     def _gen_item_op(self, actor, rng, val, flt):
         b = self._any_box(rng, actor)
@@ -1226,6 +1235,51 @@ class DataboxWorld(World):
         self.boxes[out] = r
         self.owner[out] = step.get("actor", "a0")
         self._rederive()
+        return "ok"
+
+    def _do_box_read(self, step, a):
+        """Observers with dictionary semantics: they agree with the bindings and change nothing."""
+        h = a["box"]
+        box = self.boxes[h]
+        bind = self.bind[h]
+        f = a["freq"]
+        F = ir.Frequency(cal.FREQ_VALUE[f])
+
+        def thunk():
+            bad = []
+            if set(box.get_names()) != set(bind):
+                bad.append("get_names")
+            if set(box.get_names(PREDICATES[a["pred"]])) != {n for n in bind if PREDICATES[a["pred"]](n)}:
+                bad.append("get_names(filter)")
+            if box.num_items != len(bind):
+                bad.append("num_items")
+            if set(box.to_dict()) != set(bind):
+                bad.append("to_dict")
+            if bool(box.has(a["probe"])) != all(n in bind for n in a["probe"]):
+                bad.append("has(list)")
+            for n in a["probe"]:
+                if bool(box.has(n)) != (n in bind):
+                    bad.append(f"has({n!r})")
+            if set(box.get_missing_names(a["probe"])) != {n for n in a["probe"] if n not in bind}:
+                bad.append("get_missing_names")
+            of_f = {n for n, x in bind.items() if x[0] == "s" and self.heap[x[1]][1].lo is not None and self.heap[x[1]][1].freq == f}
+            if set(box.get_series_names_by_frequency(F)) != of_f:
+                bad.append("get_series_names_by_frequency")
+            sp = box.get_span_by_frequency(F)
+            if of_f:
+                lo = min(self.heap[bind[n][1]][1].lo for n in of_f)
+                hi = max(self.heap[bind[n][1]][1].hi for n in of_f)
+                if (int(sp.start.serial), int(sp.end.serial)) != (lo, hi):
+                    bad.append(f"get_span_by_frequency {sp!r} vs serials [{lo},{hi}]")
+            elif len(sp) != 0:
+                bad.append("get_span_by_frequency of a frequency that is not in the databox is not empty")
+            return bad
+        status, r, _ = self._run("box_read", "", thunk)
+        self._crash_guard("box_read", "", status, r)
+        if r:
+            raise Violation("refine", "box_read", "", "", f"databox observers disagree with its items: {r}")
+        self._check_heap("box_read", "")
+        self._check_bindings_unchanged("box_read", "")
         return "ok"
 
     def _do_item_op(self, step, a):
